@@ -84,17 +84,20 @@ def SliceOf (buf : Bytes) (q : Frame) (s : Bytes) : Prop :=
     (∃ p, q.params = some p ∧ s <:+: p)
 
 /-- every string returned by a class lookup is a slice of the buffer -/
-theorem C12_class_slice (buf : Bytes) (c : Cache) (h : Cache.parse buf = .ok c) (name s : Bytes)
+theorem class_slice_of_suffix (buf : Bytes) (c : Cache) (hsuf : c.strings <:+ buf) (name s : Bytes)
     (hs : c.remapClass name = some s) : s <:+: buf := by
-  have hsuf := (parse_spec buf c h).1
   unfold Cache.remapClass at hs
   split at hs
   · cases hs
   · exact (str_slice _ _ _ hs).trans hsuf.isInfix
 
-theorem C12_method_slice (buf : Bytes) (c : Cache) (h : Cache.parse buf = .ok c) (cls meth a b : Bytes)
+/-- every string returned by a class lookup is a slice of the buffer -/
+theorem C12_class_slice (buf : Bytes) (c : Cache) (h : Cache.parse buf = .ok c) (name s : Bytes)
+    (hs : c.remapClass name = some s) : s <:+: buf :=
+  class_slice_of_suffix buf c (parse_spec buf c h).1 name s hs
+
+theorem method_slice_of_suffix (buf : Bytes) (c : Cache) (hsuf : c.strings <:+ buf) (cls meth a b : Bytes)
     (hs : c.remapMethod cls meth = some (a, b)) : a <:+: buf ∧ b <:+: buf := by
-  have hsuf := (parse_spec buf c h).1
   unfold Cache.remapMethod at hs
   split at hs
   · cases hs
@@ -112,13 +115,15 @@ theorem C12_method_slice (buf : Bytes) (c : Cache) (h : Cache.parse buf = .ok c)
     · cases hs
   · cases hs
 
-/-- every string in every frame returned by frame remapping (by line or by parameters) is a
-    slice of the buffer or of the query -/
-theorem C12_frame_slices (buf : Bytes) (c : Cache) (h : Cache.parse buf = .ok c) (q : Frame) :
+theorem C12_method_slice (buf : Bytes) (c : Cache) (h : Cache.parse buf = .ok c) (cls meth a b : Bytes)
+    (hs : c.remapMethod cls meth = some (a, b)) : a <:+: buf ∧ b <:+: buf :=
+  method_slice_of_suffix buf c (parse_spec buf c h).1 cls meth a b hs
+
+theorem frame_slices_of_suffix (buf : Bytes) (c : Cache) (hsuf' : c.strings <:+ buf) (q : Frame) :
     ∀ f ∈ c.remapFrame q,
       SliceOf buf q f.cls ∧ SliceOf buf q f.method ∧
       (∀ x, f.file = some x → SliceOf buf q x) ∧ (∀ x, f.params = some x → SliceOf buf q x) := by
-  have hsuf := (parse_spec buf c h).1.isInfix
+  have hsuf := hsuf'.isInfix
   intro f hf
   obtain ⟨orig, horig, hcase⟩ := remapFrame_spec c q f hf
   have hcls : ∀ s : Bytes, (s <:+: c.strings ∨ s = orig) → s <:+: buf := by
@@ -144,5 +149,30 @@ theorem C12_frame_slices (buf : Bytes) (c : Cache) (h : Cache.parse buf = .ok c)
     · intro x hx
       rw [h4] at hx
       exact Or.inr (Or.inr (Or.inr (Or.inr ⟨x, hx, List.infix_refl _⟩)))
+
+/-- every string in every frame returned by frame remapping (by line or by parameters) is a
+    slice of the buffer or of the query -/
+theorem C12_frame_slices (buf : Bytes) (c : Cache) (h : Cache.parse buf = .ok c) (q : Frame) :
+    ∀ f ∈ c.remapFrame q,
+      SliceOf buf q f.cls ∧ SliceOf buf q f.method ∧
+      (∀ x, f.file = some x → SliceOf buf q x) ∧ (∀ x, f.params = some x → SliceOf buf q x) :=
+  frame_slices_of_suffix buf c (parse_spec buf c h).1 q
+
+/-- The same guarantees for a buffer at **any** address residue (`Cache.parseAt a`, what the
+    reader sees when the file does not start at a multiple of 8 and every section is looked for
+    elsewhere): whatever is accepted has `u32` fields, line arithmetic cannot overflow
+    (`C12_line_bounded` needs only `FieldsU32`), and every returned string is a slice of the
+    buffer or of the query. -/
+theorem C12_unaligned (a : Nat) (buf : Bytes) (c : Cache) (h : Cache.parseAt a buf = .ok c) :
+    c.strings <:+ buf ∧ c.FieldsU32 ∧
+    (∀ name s, c.remapClass name = some s → s <:+: buf) ∧
+    (∀ cls meth x y, c.remapMethod cls meth = some (x, y) → x <:+: buf ∧ y <:+: buf) ∧
+    (∀ q : Frame, ∀ f ∈ c.remapFrame q,
+      SliceOf buf q f.cls ∧ SliceOf buf q f.method ∧
+      (∀ x, f.file = some x → SliceOf buf q x) ∧ (∀ x, f.params = some x → SliceOf buf q x)) := by
+  have hp := parseAt_spec a buf c h
+  exact ⟨hp.1, hp.2, fun name s hs => class_slice_of_suffix buf c hp.1 name s hs,
+    fun cls meth x y hs => method_slice_of_suffix buf c hp.1 cls meth x y hs,
+    fun q => frame_slices_of_suffix buf c hp.1 q⟩
 
 end PG
